@@ -535,7 +535,7 @@ impl<'a> Syn<'a> {
             11 => { let n = self.name(); if self.mode == Mode::Adversarial && self.rng.chance(1, 3) { format!("extend union {n} @d") } else { format!("extend union {n}{} = A | B", self.dirs(true)) } }
             12 => { let n = self.name(); if self.rng.chance(1, 3) { format!("extend enum {n} @d") } else { format!("extend enum {n}{}{}", self.dirs(true), self.enumvals()) } }
             13 => { let n = self.name(); if self.rng.chance(1, 3) { format!("extend input {n} @d") } else { format!("extend input {n}{}{}", self.dirs(true), self.inputfields()) } }
-            14 => if self.mode == Mode::Adversarial && self.rng.chance(1, 2) { format!("extend schema @{}", self.name()) } else { format!("extend schema{}{}", self.dirs(true), self.rootops()) },
+            14 => if self.rng.chance(1, 3) { format!("extend schema @{}{}", self.name(), if self.rng.chance(1, 2) { " @d(a: 1)" } else { "" }) } else { format!("extend schema{}{}", self.dirs(true), self.rootops()) },
             _ => format!("{}scalar {}", self.desc(true, ""), self.name()),
         }
     }
